@@ -291,7 +291,7 @@ def execute(case, parallel=(), restart_after=None):
     opts = case['opts']
     unit = opts['unit']
     run = harness.Run()
-    harness.begin_run(0.0)
+    harness.begin_run(0.0, seed=case.get('seed', 0))
     register()
     from dst.wiring import register_updaters
     register_updaters()
@@ -741,6 +741,8 @@ def check(case, run, stats=None):
     dead_uids = set()
     last_struct = 'none'
     model_version = [0]
+    batch = {'T': None, 'struct': set(), 'valued': set()}
+    sensitive = stats.setdefault('order_sensitive', [])
 
     last_cmp = [None, None]
 
@@ -788,9 +790,21 @@ def check(case, run, stats=None):
                 if rp != mp:
                     return V('C09', 'C09.cell-parties', 'plain',
                              '%s/%s holds parties %r, expected %r' % (s, key, rp, mp), seq)
+        # C11: every node holds its own process instance
+        if ids is not None:
+            seen_obj = {}
+            for path, ident in ids.items():
+                if path and path[0] == '<P>':
+                    if ident in seen_obj:
+                        return V('C11', 'C11.shared-process-instance', 'plain',
+                                 'nodes %r and %r hold one and the same process object' % (
+                                     seen_obj[ident][1:], path[1:]), seq)
+                    seen_obj[ident] = path
         # identity frame condition
         if ids is not None and last_ids is not None:
             for path, ident in ids.items():
+                if path and path[0] == '<P>':
+                    continue
                 old = last_ids.get(path)
                 if old is None or old == ident:
                     continue
@@ -833,9 +847,78 @@ def check(case, run, stats=None):
         return None
 
     stats['known_hits'] = m.known_hits
+    phase = None            # {'live': set(paths), 'ran': set(paths)}
+    sched = {}              # uid -> {'last_end', 'poll', 'quiet', 'pending', 'path', 'first'}
+    ops_info = {}
+    created_at = {}         # cell path (store, key) -> creation time
+    restarted = False
+
+    def live_steps():
+        return set(p_ for p_, d in m.live_parties().items() if d.get('kind') == 'step')
+
+    def end_phase(seq):
+        nonlocal phase
+        if phase is None:
+            return None
+        now_live = live_steps()
+        missing = [p_ for p_ in phase['live'] if p_ not in phase['ran'] and p_ in now_live]
+        phase = None
+        if missing:
+            return V('C10', 'C10.step-missed', 'plain',
+                     'step %r existed when the phase began and still exists, but did not run in it' % (missing[0],), seq)
+        return None
+
     for ev in log:
         k = ev['k']
         seq = ev['seq']
+        if k == 'OPSTART':
+            ops_info[ev['op']] = ev
+        if k == 'RESTART':
+            restarted = True
+            sched.clear()
+            last_ids = None
+            pending_nu.clear()
+        # ---- step phases (C10: each step once per phase) ----
+        if k == 'STEPNU':
+            if phase is None:
+                phase = {'live': live_steps(), 'ran': set()}
+            p_ = tuple(ev.get('path') or ())
+            if p_ in phase['ran']:
+                return [V('C10', 'C10.step-ran-twice', 'after-' + last_struct,
+                          'step %r ran twice in one phase at %r' % (p_, ev['T']), seq)]
+            if p_ not in phase['live']:
+                return [V('C10', 'C10.step-ran-too-early', 'plain',
+                          'step %r was created during this phase and already runs in it' % (p_,), seq)]
+            phase['ran'].add(p_)
+        elif k in ('POLL', 'NU', 'EMIT', 'OPEND') or (
+                k == 'COND' and (m.live_parties().get(tuple(ev.get('path') or ())) or {}).get('kind') != 'step'):
+            err = end_phase(seq)
+            if err:
+                return [err]
+        # ---- process schedules (C10: own schedule, start at creation) ----
+        if k == 'POLL':
+            sd = sched.setdefault(ev['uid'], {'last_end': None, 'quiet': False, 'pending': None})
+            sd['poll'] = ev
+            if sd['last_end'] is None:
+                # first poll of this instance: it enters the simulation now
+                cpath = tuple((ev.get('path') or ())[:2])
+                want_T = created_at.get(cpath, None)
+                if want_T is not None and ev['T'] != want_T and not restarted:
+                    return [V('C10', 'C10.start-time', 'plain',
+                              '%s was created at %r but first asked for a timestep at %r' % (
+                                  ev['uid'], want_T, ev['T']), seq)]
+                sd['last_end'] = ev['T']
+        elif k == 'COND' and ev['uid'] in sched and not ev['ans']:
+            sched[ev['uid']]['quiet'] = True
+        elif k == 'NU' and ev['uid'] in sched:
+            sd = sched[ev['uid']]
+            if sd.get('poll') is not None:
+                o = ops_info.get(ev['op'])
+                E = sd['last_end'] + sd['poll']['ans']
+                if o is not None and o.get('force') and E > o['end']:
+                    E = o['end']
+                sd['pending'] = {'n': ev['n'], 'E': E, 'quiet': sd['quiet'], 'T': ev['T'],
+                                 'path': tuple(ev.get('path') or ())}
         if k in ('POLL', 'COND', 'NU', 'STEPNU'):
             uid = ev['uid']
             name = uid.split('#')[0]
@@ -865,12 +948,49 @@ def check(case, run, stats=None):
                 continue
             nu = pending_nu.pop((u[0], u[1]), None)
             model_version[0] += 1
+            if batch['T'] != ev['T']:
+                batch['T'], batch['struct'], batch['valued'] = ev['T'], set(), set()
+            sd = sched.get(u[0])
+            if sd is not None and sd.get('pending') is not None and sd['pending']['n'] == u[1]:
+                pe = sd['pending']
+                if not pe['quiet'] and not pe.get('moved') and ev['T'] != pe['E']:
+                    return [V('C10', 'C10.schedule', 'after-' + last_struct,
+                              'update %r of a surviving process was applied at %r, its interval ends at %r' % (
+                                  u, ev['T'], pe['E']), seq)]
+                sd['last_end'] = ev['T'] if not pe.get('moved') else sd['last_end']
+                sd['quiet'] = False
+                sd['pending'] = None
             if nu is None:
                 return [V('C01', 'C01.apply.unknown', 'struct', 'update %r applied twice or never computed' % (u,), seq)]
             name = u[0].split('#')[0]
             update = nu['update']
             if name in actor_names:
+                n_created = len(m.created)
+                n_moved = len(m.moved)
+                fp_before = set(footprint)
                 res = m.apply_actor_update(update, footprint)
+                batch['struct'] |= (set(footprint) - fp_before) | set(
+                    f for f in footprint if any(kk in str(update) for kk in ('_delete', '_divide', '_move')))
+                for st_ in STORES:
+                    for key_, val_ in (update.get(st_) or {}).items():
+                        if not key_.startswith('_'):
+                            batch['valued'].add((st_, key_))
+                if batch['struct'] & batch['valued']:
+                    sensitive.append(ev['T'])
+                for cpath in m.created[n_created:]:
+                    created_at[cpath] = ev['T']
+                for (src, dst) in m.moved[n_moved:]:
+                    # a moved process starts afresh at its new path
+                    created_at[dst] = ev['T']
+                    for uid_, sd_ in sched.items():
+                        pth = (sd_.get('pending') or {}).get('path') or ()
+                        pl = sd_.get('poll')
+                        ppath = tuple((pl or {}).get('path') or ())
+                        if ppath[:2] == src or pth[:2] == src:
+                            sd_['last_end'] = ev['T']
+                            sd_['quiet'] = False
+                            if sd_.get('pending'):
+                                sd_['pending']['moved'] = True
                 if res == 'illegal-add':
                     expect_exception = seq
                 if any(kk in str(update) for kk in ('_add', '_delete', '_move', '_generate', '_divide')):
@@ -887,6 +1007,9 @@ def check(case, run, stats=None):
                 pass
             else:
                 cell = m.find(tuple(nu.get('path') or ()))
+                batch['valued'].add(tuple((nu.get('path') or ())[:2]))
+                if batch['struct'] & batch['valued']:
+                    sensitive.append(ev['T'])
                 if cell is None:
                     probe('update-to-vanished-cell-dropped')
                 else:
@@ -1088,6 +1211,17 @@ def evaluate(case, prop=None):
     vs = check(case, run, stats)
     if run.exc is None or vs == []:
         vs += check_published(case, run)
+    executions = 1
+    if prop in (None, 'C10') and not vs and run.exc is None:
+        i = restart_point(case)
+        if i is not None:
+            run_r = execute(case, restart_after=i)
+            executions += 1
+            vs += check_restart(case, run, run_r, i, stats.get('order_sensitive', []))
+            if not vs:
+                # the rebuilt engine must satisfy every oracle on its own as well
+                vs += [v for v in check(case, run_r, {}) if v['prop'] != 'C11' or True]
+            stats.setdefault('probes', {})['restart-differential'] = 1
     probes = stats.get('probes', {})
     keys = NONTRIVIAL.get(prop) or ('structural-update-applied',)
     final_T = run.log[-1]['T'] if run.log else 0
@@ -1095,6 +1229,65 @@ def evaluate(case, prop=None):
         'violations': vs, 'probes': probes,
         'nontrivial': any(probes.get(k) for k in keys),
         'shape': kernel.shape_of(run.log), 'events': len(run.log),
-        'sim_seconds': final_T, 'faults': {}, 'executions': 1,
+        'sim_seconds': final_T, 'faults': {}, 'executions': executions,
         'digest': run.digest, 'known_hits': stats.get('known_hits', {}),
     }
+
+
+def restart_point(case):
+    """Index of an `update` op (forced completion = quiescent point) that is
+    not the last op, or None.  Not applicable when an actor is a step: the new
+    engine's constructor runs a step phase, which for an actor is one more
+    structural operation."""
+    if any(a['kind'] == 'step' for a in case['actors']):
+        return None
+    for i, op in enumerate(case['ops'][:-1]):
+        if op[0] == 'update':
+            return i
+    return None
+
+
+def _rows_after(run, T):
+    out = {}
+    for e in run.log:
+        if e['k'] == 'EMIT' and e.get('table') == 'history' and e['row'].get('time') >= T:
+            out[e['row']['time']] = {k: v for k, v in e['row'].items() if k != 'time'}
+    return out
+
+
+def check_restart(case, run, run_r, i, sensitive=()):
+    """F6: a new engine built from the published composite and the current
+    state at a quiescent point continues identically."""
+    if run_r.exc is not None:
+        return [V('C10', 'C10.restart', 'exception',
+                  'rebuilding the engine from the published composite after op %d, or continuing it, raised %s: %s' % (
+                      i, run_r.exc[1], run_r.exc[2][-600:]))]
+    T = None
+    for e in run_r.log:
+        if e['k'] == 'RESTART':
+            T = e['T']
+    if T is None:
+        return []
+    a, b = _rows_after(run, T), _rows_after(run_r, T)
+    # batches in which a structural operation and a value update address the
+    # same cell do not commute; the order inside a batch follows the listing
+    # order of the processes, which a rebuilt engine need not share.  Rows are
+    # comparable up to the first such batch.
+    later = [t for t in sensitive if t > T]
+    if later:
+        cut = min(later)
+        a = {t: r for t, r in a.items() if t < cut}
+        b = {t: r for t, r in b.items() if t < cut}
+    if list(a.keys()) != list(b.keys()):
+        return [V('C10', 'C10.restart', 'times',
+                  'after a restart at %r rows are emitted at %r..., the continued engine emits at %r...' % (
+                      T, list(b)[:6], list(a)[:6]))]
+    for t in a:
+        if not values_equal(_rowvals(a[t]), _rowvals(b[t])):
+            return [V('C10', 'C10.restart', 'rows',
+                      'after a restart at %r the row at %r differs: continued %r, rebuilt %r' % (T, t, a[t], b[t]))]
+    return []
+
+
+def _rowvals(row):
+    return {s: row.get(s) for s in STORES}
